@@ -70,6 +70,7 @@ func (b *expandBody) PartialContent(schema *hcl.BodySchema) (*hcl.BodyContent, h
 		forEachCtx:   b.forEachCtx,
 		iteration:    b.iteration,
 		checkForEach: b.checkForEach,
+		valueMarks:   b.valueMarks,
 		hiddenAttrs:  make(map[string]struct{}),
 		hiddenBlocks: make(map[string]hcl.BlockHeaderSchema),
 	}
